@@ -39,7 +39,7 @@ CallOf(e) == [ep |-> e.ep, id |-> e.id, hash |-> e.hash, gm |-> e.gm, body |-> e
 
 Alarm(mon, e, extra) ==
   [mon |-> mon, line |-> l, ns |-> e.ns, via |-> e.via, ep |-> e.ep, id |-> e.id, hash |-> e.hash, gm |-> e.gm,
-   body |-> e.body, shape |-> e.shape, res |-> e.res, on |-> e.on, detail |-> extra]
+   body |-> e.body, shape |-> e.shape, res |-> e.res, on |-> e.on, detail |-> extra, cls |-> "-"]
 
 ObsClass(res) == CASE res \in {"ok", "reject"} -> "done" [] res = "panic" -> "panic" [] res = "blocked" -> "stuck" [] OTHER -> "?"
 
@@ -64,7 +64,7 @@ StepCall(e) ==
                  THEN {Alarm("Conformance", e, "outcome on the listener differs from the specification's program")} ELSE {}
          C3 == IF known /\ ~direct /\ o.res = "panic" /\ ~(e.res = "reject" /\ e.code \in {"Internal", "transport", "500"})
                  THEN {Alarm("Conformance", e, "a panic of the handler is not what the caller saw")} ELSE {}
-         C4 == IF known /\ direct /\ \E p \in Range(e.probes) : (p.res = "blocked") # (ProbeAfter(e.ns, c, ProbeCall(p)).res = "stuck")
+         C4 == IF known /\ direct /\ \E p \in Range(e.probes) : (p.res = "blocked") # (ProbeFrom(e.ns, o.L, ProbeCall(p)).res = "stuck")
                  THEN {Alarm("Conformance", e, "probe outcome differs from the specification's lock state")} ELSE {}
          C5 == IF known /\ direct /\ e.res = "blocked" /\ o.res = "stuck" /\ e.onKind \notin {"mutex", "rwmutex"}
                  THEN {Alarm("Conformance", e, "blocked, but not on a lock")} ELSE {}
@@ -79,6 +79,27 @@ StepCall(e) ==
          M5 == IF ~e.alive THEN {Alarm("ProcessAlive", e, "the process does not answer on its listeners any more")} ELSE {}
      IN alarms' = alarms \cup C0 \cup C1 \cup C2 \cup C3 \cup C4 \cup C5 \cup M1 \cup M2 \cup M3 \cup M4 \cup M5
 
+\* a request concurrent with an internal event of the daemon (gated replay of the Conc machine)
+ConcAlarm(mon, e, cls, extra) ==
+  [mon |-> mon, line |-> l, ns |-> e.ns, via |-> "conc:" \o e.event, ep |-> e.ep, id |-> e.id, hash |-> e.hash, gm |-> e.gm,
+   body |-> e.body, shape |-> e.shape, res |-> e.res, on |-> e.on \o " || " \o e.t2on, detail |-> extra, cls |-> cls]
+StepConc(e) ==
+  /\ e.ev = "Conc"
+  /\ LET c == CallOf(e)
+         known == c \in Calls /\ WellFormed(c) /\ e.ns \in NodeStates
+         ie == [ev |-> e.event, x |-> e.x]
+         pred == CanDeadlock(e.ns, c, ie)
+         obs == e.res = "blocked" \/ e.t2 = "blocked"
+         cls == IF c.ep \in RoutedEps /\ c.hash \notin ({NoneTok} \cup DOMAIN WorldOf[e.ns].hashes)
+                  THEN "routed-request-with-a-hash-unknown-to-the-daemon" ELSE "other"
+         C0 == IF ~known THEN {ConcAlarm("Conformance", e, cls, "request class unknown to the specification")} ELSE {}
+         C1 == IF known /\ pred # obs THEN {ConcAlarm("Conformance", e, cls, "deadlock differs from the specification's lock-order analysis")} ELSE {}
+         M1 == IF obs THEN {ConcAlarm("NoDeadlock", e, cls, "request-and-internal-step-wait-for-each-other")} ELSE {}
+         M2 == IF \E p \in Range(e.probes) : ~StillServes(ObsClass(p.res))
+                 THEN {ConcAlarm("StillServes", e, cls, IF obs THEN "after-deadlock" ELSE "after-returned-call")} ELSE {}
+         M3 == IF ~obs /\ ~Responds(ObsClass(e.res)) THEN {ConcAlarm("Responds", e, cls, "no-answer-within-deadline")} ELSE {}
+     IN alarms' = alarms \cup C0 \cup C1 \cup M1 \cup M2 \cup M3
+
 StepWorld(e) ==
   /\ e.ev = "World"
   /\ LET w == WorldOf[e.ns]
@@ -87,24 +108,24 @@ StepWorld(e) ==
      IN alarms' = alarms \cup
           (IF procs # w.procs \/ hashes # w.hashes \/ Range(e.http) # (DOMAIN w.http) \ {DefaultKey}
              THEN {[mon |-> "Conformance", line |-> l, ns |-> e.ns, via |-> "-", ep |-> "World", id |-> "-", hash |-> "-", gm |-> "-",
-                    body |-> "-", shape |-> "-", res |-> "-", on |-> "-", detail |-> "the daemon's tables are not those of the specification's world"]}
+                    body |-> "-", shape |-> "-", res |-> "-", on |-> "-", detail |-> "the daemon's tables are not those of the specification's world", cls |-> "-"]}
              ELSE {})
 
 StepCrash(e) ==
   /\ e.ev = "Crash"
   /\ alarms' = alarms \cup {[mon |-> "ProcessAlive", line |-> l, ns |-> e.ns, via |-> e.via, ep |-> e.ep, id |-> e.id, hash |-> e.hash, gm |-> e.gm,
-                             body |-> e.body, shape |-> e.shape, res |-> "crash", on |-> "-", detail |-> "the process died"]}
+                             body |-> e.body, shape |-> e.shape, res |-> "crash", on |-> "-", detail |-> "the process died", cls |-> "-"]}
 
 StepHarness(e) ==
   /\ e.ev = "HarnessError"
   /\ alarms' = alarms \cup {[mon |-> "Harness", line |-> l, ns |-> e.ns, via |-> "-", ep |-> "-", id |-> "-", hash |-> "-", gm |-> "-",
-                             body |-> "-", shape |-> "-", res |-> "-", on |-> "-", detail |-> e.err]}
+                             body |-> "-", shape |-> "-", res |-> "-", on |-> "-", detail |-> e.err, cls |-> "-"]}
 
 StepOther(e) == e.ev \in {"Start", "Begin", "LaneDone", "Done"} /\ alarms' = alarms
 
 TraceNext ==
   /\ l <= Len(TraceLog)
-  /\ LET e == TraceLog[l] IN StepCall(e) \/ StepWorld(e) \/ StepCrash(e) \/ StepHarness(e) \/ StepOther(e)
+  /\ LET e == TraceLog[l] IN StepCall(e) \/ StepConc(e) \/ StepWorld(e) \/ StepCrash(e) \/ StepHarness(e) \/ StepOther(e)
   /\ l' = l + 1
   /\ UNCHANGED <<st, steps, last, ns, lk, th, nxt>>
 
